@@ -289,16 +289,6 @@ pub fn run(ctx: &mut Ctx) {
     let names = common_safe_names();
     let g = Gen { names: &names, max_depth: 7, max_arity: 6, placeholders: true, set_bias: false };
     let mut rng = ctx.rng(0xC14);
-    let n = ctx.share(1_000_000, 15_000_000);
-    for i in 0..n {
-        if ctx.out_of_time() {
-            ctx.report.inconclusive.push(format!("random workload cut at {} of {}", i, n));
-            break;
-        }
-        let depth = 2 + rng.below(5);
-        let t = g.term_x(&mut rng, depth);
-        check(ctx, &t, "random");
-    }
     // lexical terms in the three vocabularies
     let m = ctx.share(400_000, 6_000_000);
     for i in 0..m {
@@ -318,9 +308,99 @@ pub fn run(ctx: &mut Ctx) {
             ctx.report.violate(
                 format!("C14|lexical|{}|{}", f.name(), w),
                 format!("{} for lexical term {}", w, lexgen::lex_term_canon(&x)),
-                J::obj().set("model", "lexical").set("format", f.name()).set("term", lexgen::lex_term_canon(&x)).set("why", w.clone()),
+                J::obj().set("model", "lexical").set("format", f.name()).set("term", lexgen::lex_term_json(&x)).set("why", w.clone()),
             );
         }
+    }
+    // hostile lexical terms: any public-constructor value, with connecter / copula / prefix / bracket
+    // strings that are *not* the stock ones (keywords of another role or another format, keyword +
+    // name, name + keyword, empty, plain names).  Most do not fold; whenever the fold answers Ok the
+    // category must still agree, and extraction / category never depend on the strings.
+    let hostile = ctx.share(150_000, 3_000_000);
+    let mut pools: Vec<Vec<String>> = vec![];
+    for f in ALL_FMT {
+        let v = lexgen::Vocab::of(f);
+        let mut base: Vec<String> = vec![];
+        base.extend(v.prefixes.iter().cloned());
+        base.extend(v.connecters.iter().cloned());
+        base.extend(v.copulas.iter().cloned());
+        for (l, r) in &v.set_brackets {
+            base.push(l.clone());
+            base.push(r.clone());
+        }
+        base.extend(v.punctuations.iter().cloned());
+        let mut pool = base.clone();
+        for b in &base {
+            for n in ["op", "go-to", "x", "1", "_"] {
+                pool.push(format!("{}{}", b, n));
+                pool.push(format!("{}{}", n, b));
+            }
+        }
+        for a in &v.prefixes {
+            for b in v.connecters.iter().chain(v.copulas.iter()) {
+                pool.push(format!("{}{}", a, b));
+                pool.push(format!("{}{}", b, a));
+            }
+        }
+        pool.extend(["", " ", "op", "word", "0", "-", "--", "&", "|"].iter().map(|s| s.to_string()));
+        pool.sort();
+        pool.dedup();
+        pools.push(pool);
+    }
+    let all_pool: Vec<String> = pools.iter().flatten().cloned().collect();
+    for i in 0..hostile {
+        if ctx.out_of_time() {
+            break;
+        }
+        let fi = (i % 3) as usize;
+        let f = ALL_FMT[fi];
+        let lg = lexgen::LexGen::new(f, true);
+        // strings mostly from the folder's own format, sometimes from any format
+        let pick = |rng: &mut crate::rng::Rng| -> String { if rng.chance(1, 5) { rng.pick(&all_pool).clone() } else { rng.pick(&pools[fi]).clone() } };
+        let n = rng.below(5);
+        let mut kids: Vec<LexTerm> = (0..n)
+            .map(|_| {
+                let d__ = rng.below(3);
+                lg.term(&mut rng, d__)
+            })
+            .collect();
+        let x = match rng.below(4) {
+            0 => LexTerm::new_atom(pick(&mut rng), if rng.chance(1, 2) { pick(&mut rng) } else { rng.pick(&lg.names).clone() }),
+            1 => LexTerm::new_compound(pick(&mut rng), kids),
+            2 => LexTerm::new_set(pick(&mut rng), kids, pick(&mut rng)),
+            _ => {
+                while kids.len() < 2 {
+                    kids.push(lg.atom(&mut rng, false));
+                }
+                let b = kids.pop().unwrap();
+                let a = kids.pop().unwrap();
+                LexTerm::new_statement(pick(&mut rng), a, b)
+            }
+        };
+        ctx.report.eval();
+        ctx.report.bump(&format!("lexical-hostile.{}", f.name()));
+        ctx.report.nontrivial(&format!("lexh|{}|{}", f.name(), lexgen::lex_term_canon(&x)));
+        if matches!(observe(|| x.clone().try_fold_into(f.e()).map(|t: Term| t)), Obs::Ret(Ok(_))) {
+            ctx.report.bump("lexical-hostile.fold-ok");
+        }
+        if let Some(w) = lex_failure(f, &x) {
+            ctx.report.violate(
+                format!("C14|lexical-hostile|{}|{}", f.name(), w),
+                format!("{} for lexical term {}", w, lexgen::lex_term_canon(&x)),
+                J::obj().set("model", "lexical").set("format", f.name()).set("term", lexgen::lex_term_json(&x)).set("why", w.clone()),
+            );
+        }
+    }
+    // random enum terms (the largest family, last: a run cut by the time budget has then done the others)
+    let n = ctx.share(1_000_000, 15_000_000);
+    for i in 0..n {
+        if ctx.out_of_time() {
+            ctx.report.inconclusive.push(format!("random workload cut at {} of {}", i, n));
+            break;
+        }
+        let depth = 2 + rng.below(5);
+        let t = g.term_x(&mut rng, depth);
+        check(ctx, &t, "random");
     }
     ctx.report.note(
         "rule",
@@ -333,6 +413,13 @@ pub fn replay(ctx: &mut Ctx, d: &J) -> Option<()> {
         let td = TD::from_json(d.get("term")?)?;
         if let Some(w) = term_failure(&td) {
             ctx.report.violate(format!("C14|enum|{}", td.canon()), w, d.clone());
+        }
+    }
+    if jstr(d, "model")? == "lexical" {
+        let f = fmt_of(d)?;
+        let x = lexgen::lex_term_from_json(d.get("term")?)?;
+        if let Some(w) = lex_failure(f, &x) {
+            ctx.report.violate(format!("C14|lexical|{}|{}", f.name(), w), w, d.clone());
         }
     }
     Some(())
